@@ -18,6 +18,9 @@ pub const PAYLOADS: &[&str] = &[
     "()",
     "Option<Box<Vec<usize>>>",
     "Vec<std::option::Option<Box<std::rc::Rc<crate::Pay>>>>",
+    "crate::ItSelfNode",
+    "Option<usize>",
+    "std::boxed::Box<crate::Pay>",
 ];
 
 pub fn payload_type(kind: usize) -> TypeExpr {
@@ -54,6 +57,10 @@ pub fn payload_type(kind: usize) -> TypeExpr {
                 )],
             )],
         ),
+        9 => TypeExpr::path("crate::ItSelfNode"),
+        // same argument lists as kinds 3 and 4 under other callees
+        10 => TypeExpr::Generic(vec!["Option".into()], vec![TypeExpr::path("usize")]),
+        11 => TypeExpr::Generic(vec!["std".into(), "boxed".into(), "Box".into()], vec![TypeExpr::path("crate::Pay")]),
         _ => TypeExpr::Unit,
     }
 }
@@ -76,6 +83,9 @@ fn payload_ctor(kind: usize) -> &'static str {
         5 => "{ let mut m = std::collections::BTreeMap::new(); m.insert(v, vec![None, Some(())]); m }",
         7 => "Some(Box::new(vec![v, k]))",
         8 => "vec![None, Some(Box::new(std::rc::Rc::new(crate::Pay(v))))]",
+        9 => "crate::ItSelfNode(v)",
+        10 => "Some(v)",
+        11 => "Box::new(crate::Pay(v))",
         _ => "()",
     }
 }
@@ -92,6 +102,9 @@ pub fn payload_debug(kind: usize, k: usize, pos: usize, scheme: usize) -> String
         5 => format!("{{{v}: [None, Some(())]}}"),
         7 => format!("Some([{v}, {k}])"),
         8 => format!("[None, Some(Pay({v}))]"),
+        9 => format!("ItSelfNode({v})"),
+        10 => format!("Some({v})"),
+        11 => format!("Pay({v})"),
         _ => "()".to_string(),
     }
 }
@@ -109,6 +122,8 @@ pub fn driver_source(m: &Model, pay: &[usize]) -> String {
 mod gen;
 #[derive(Debug)]
 pub struct Pay(pub usize);
+#[derive(Debug)]
+pub struct ItSelfNode(pub usize);
 use std::cell::Cell;
 use std::io::{{BufRead, Write}};
 use std::rc::Rc;
